@@ -379,6 +379,58 @@ func c16Worker(args []string) int {
 				}
 			}
 		}
+		// ... and for copies of one template: every goroutine clones the same decorated file (which nobody writes
+		// to), edits the decoration lists of its own copy and prints it - as when the steps are done alone
+		{
+			var tsrc strings.Builder
+			tsrc.WriteString("package p\n\nfunc f(jobs chan int) {\n")
+			for i, st := range []string{"go pump(jobs)", "defer close(jobs)", "jobs <- 1", "x := <-jobs", "x++", "return"} {
+				for k := 0; k < 3+i%3*2; k++ { // 3, 5, 7 comment lines: lists with spare capacity
+					fmt.Fprintf(&tsrc, "\t// %s %d\n", strings.Fields(st)[0], k)
+				}
+				tsrc.WriteString("\t" + st + " // t\n\n")
+			}
+			tsrc.WriteString("}\n")
+			tmpl, terr := decorator.Parse(tsrc.String())
+			edit := func(g int) string {
+				cl := dst.Clone(tmpl).(*dst.File)
+				dst.Inspect(cl, func(n dst.Node) bool {
+					if st, ok := n.(dst.Stmt); ok && n != nil {
+						if _, isBlock := n.(*dst.BlockStmt); !isBlock {
+							st.Decorations().Start.Append(fmt.Sprintf("// instance %d", g))
+							st.Decorations().End.Append(fmt.Sprintf("/* %d */", g))
+						}
+					}
+					return true
+				})
+				var buf bytes.Buffer
+				if err := decorator.Fprint(&buf, cl); err != nil {
+					return "error: " + err.Error()
+				}
+				return buf.String()
+			}
+			if terr != nil {
+				fmt.Println("DIFF clone-template: the template does not parse:", terr)
+			} else {
+				want := make([]string, 8)
+				for g := range want {
+					want[g] = edit(g)
+				}
+				var twg sync.WaitGroup
+				got := make([]string, 8)
+				for g := 0; g < 8; g++ {
+					twg.Add(1)
+					go func(g int) { defer twg.Done(); got[g] = edit(g) }(g)
+				}
+				twg.Wait()
+				for g := range got {
+					if got[g] != want[g] || !strings.Contains(got[g], fmt.Sprintf("// instance %d\n", g)) || strings.Contains(got[g], fmt.Sprintf("// instance %d\n", (g+1)%8)) {
+						fmt.Printf("DIFF clone-template goroutine %d: the copy edited and printed concurrently is\n%s\nalone\n%s\n", g, got[g], want[g])
+						break
+					}
+				}
+			}
+		}
 		// ... and for sources that are not gofmt-canonical (runs of several empty lines, which the decorator
 		// folds into one): decorated again and again by ONE decorator, and by several goroutines with a
 		// decorator each that share one file set - where the file lands in the file set is no input
